@@ -33,8 +33,14 @@ def gen_case(rng: random.Random) -> dict[str, Any]:
         specs.append({"h": h, "beh": beh, "children": children.get(h, [])})
     for h in spawned_by_script:
         at = rng.randint(0, max(0, exit_at - 1))
-        script.append({"at": at, "op": "spawn", "h": h, "via": rng.choice(["task", "soon"]),
-                       "from": rng.choice(["owner", "owner", "nested", "service"])})
+        step = {"at": at, "op": "spawn", "h": h, "via": rng.choice(["task", "soon"]),
+                "from": rng.choice(["owner", "owner", "nested", "service"])}
+        if step["via"] == "soon" and step["from"] in ("owner", "nested") and rng.random() < 0.2:
+            # cancelled through its handle in the very instant it was spawned, before it ran at all
+            step["cancelNow"] = True
+            if rng.random() < 0.6:
+                script.append({"at": at + 0.25, "op": "wait", "h": h})
+        script.append(step)
     for s in specs:
         if "forever" in s["beh"] or rng.random() < 0.15:
             # cancelled through the handle (always, for tasks that never end by themselves)
@@ -151,9 +157,16 @@ class C09(Prop):
         for e in tr:
             if e["l"][0] == "waitReturned":
                 h = e["l"][1]
-                req = next((s["at"] for s in case["script"] if s["op"] == "wait" and s["h"] == h), 0)
-                if h in end_t and abs(e["t"] - max(req, end_t[h])) > 1e-6:
+                reqs = [s["at"] for s in case["script"] if s["op"] == "wait" and s["h"] == h] or [0]
+                if h in end_t and all(abs(e["t"] - max(req, end_t[h])) > 1e-6 for req in reqs):
                     fails.append(f"wait_finished() of task {h} returned at t={e['t']}, the task ended at {end_t[h]}")
+        # every wait_finished() on a spawned task returns once the task has ended
+        for h in spawn_t:
+            asked = sum(1 for st in case["script"] if st["op"] == "wait" and st["h"] == h and st["at"] >= spawn_t[h])
+            got = sum(1 for l in labels if l == ["waitReturned", h])
+            if got < asked and not crashed:
+                fails.append(f"wait_finished() of task {h} never returned for {asked - got} of its {asked} callers "
+                             f"(the task {'ended at t=%s' % end_t[h] if h in end_t else 'never reported its end'})")
         return ["[C09] " + f for f in dict.fromkeys(fails)]
 
     def nontrivial(self, case, impl):
@@ -179,8 +192,12 @@ class C09(Prop):
 
     def shrink(self, case) -> Iterator[dict[str, Any]]:
         sc = case["script"]
+        forever = {s["h"] for s in case["specs"] if "forever" in s["beh"]}
         for i in reversed(range(len(sc))):
             if sc[i]["op"] != "spawn":
+                if sc[i]["op"] == "cancel" and sc[i]["h"] in forever and \
+                        not any(x["op"] == "cancel" and x["h"] == sc[i]["h"] for x in sc[i + 1:]):
+                    continue        # a task that never ends by itself keeps its last cancel (else teardown waits for ever)
                 yield {**case, "script": sc[:i] + sc[i + 1:]}
         for i in reversed(range(len(sc))):
             if sc[i]["op"] == "spawn":
